@@ -74,6 +74,7 @@ type gen struct {
 	types    []string // declared user types (object types)
 	scalars  []string // declared scalar user types
 	anys     []string // declared free-form ({type: "any"}) user types
+	lateDefect bool
 	enums    []string
 	tags     []string
 	macros   []*node
@@ -599,6 +600,10 @@ func genValid(r *Rand) *Project {
 		g.splitFiles("root.jst", 0)
 	}
 	g.render(proj)
+	if g.lateDefect {
+		proj.Valid = false
+		proj.Kind = "generated-late-defect"
+	}
 	for f := range g.features {
 		proj.Features = append(proj.Features, f)
 	}
@@ -659,6 +664,13 @@ func (g *gen) macroize(top []*node) []*node {
 				break
 			}
 		}
+	}
+	if g.r.Chance(1, 8) {
+		// a defect INSIDE a macro body that is only found after unfolding (undefined type in a pasted
+		// response): the error belongs to the macro's file, whatever file pastes it
+		g.feat("macro-late-defect")
+		g.lateDefect = true
+		m1.kids = append(m1.kids, &node{head: "499 @noSuchTypeInMacro"})
 	}
 	// macros may be defined after use
 	if g.r.Chance(1, 2) {
